@@ -71,7 +71,7 @@ pub fn run(ctx: &Ctx) -> i32 {
         return rep.finish();
     }
     let known = check::load_known();
-    let n = ctx.scale(20000, 300000);
+    let n = ctx.scale(60000, 300000);
     let mut trees = check::draw(ctx.seed, 0xC13, n, 420);
     let mut panics: Vec<(usize, Case)> = Vec::new();
     let mut per_op = vec![0u64; faults::N_OPS + 1];
